@@ -39,8 +39,8 @@ def main():
             pass
         corpus.append({"id": "refactor:" + os.path.basename(d.rstrip("/")), "prop": prop, "patch": d + "patch.diff", "expect": "silent"})
     # feature pairs: the same small feature done right (silent) and with a slip in the new code (reported)
-    d = ROOT + "/features/%s/" % prop
-    if os.path.isdir(d):
+    for d in sorted(glob.glob(ROOT + "/features/%s/" % prop) + glob.glob(ROOT + "/features/%s-*/" % prop)):
+        tag = os.path.basename(d.rstrip("/"))
         for variant, expect in (("good", "silent"), ("bad", "any")):
             try:
                 meta = json.load(open(d + variant + "/meta.json"))
@@ -49,7 +49,7 @@ def main():
             if meta.get("expect", "") in ("missed", "alarm-false"):
                 continue  # recorded with its reason in meta.json and DESIGN.md
             if os.path.exists(d + variant + "/patch.diff"):
-                corpus.append({"id": "feature:%s-%s" % (prop, variant), "prop": prop, "patch": d + variant + "/patch.diff", "expect": expect})
+                corpus.append({"id": "feature:%s-%s" % (tag, variant), "prop": prop, "patch": d + variant + "/patch.diff", "expect": expect})
     work = tempfile.mkdtemp(prefix="selftest-", dir=os.path.join(ROOT, "evidence"))
     try:
         results = run_all(prop, repo, corpus, work)
